@@ -87,4 +87,19 @@ CHECKS = {
                 rnd("conc", "c19c", 60000, 1500000, variant="sched", essential=["switch_inside_index", "switch_inside_grow", "table_realloc", "three_threads", "autogrow"])],
         assumptions=["concurrent stage: interleavings are sequentially consistent at the granularity of individual accesses; weak-memory effects are invisible"],
     ),
+    "C01": dict(
+        title="ring buffer: one writer + one reader, all interleavings",
+        level="exploration",
+        design_ref="DESIGN.md section 4, C01",
+        technique="schedule exploration: randomised + small-scope exhaustive enumeration of writer/reader interleavings at load/store granularity, history-prefix oracle",
+        level_text="writer and reader scripts run under a cooperative scheduler that owns every interleaving point (each compiler-instrumented access to the shared header/data and each "
+                   "semaphore op): seeded random schedules over generated scripts, plus every schedule with at most 2 preemptions for 8 fixed 2+2-op scripts in both notification modes; "
+                   "oracle: reader's chunks are always a byte-identical prefix of the successful writes, refused writes have no effect, drain returns exactly the rest",
+        level_note="trusted: the history oracle and the schedule engine; sequentially-consistent interleavings only; memcpy of payload inside libqb is one step (word-wise tearing is covered by "
+                   "the alloc + fill + commit and peek + compare + reclaim ops whose copies yield per word)",
+        stages=[rnd("sched", "c01", 20000, 600000, variant="sched", enum_note="all schedules with <= 2 preemptions (quick: first 120 yield points, thorough: 260) of 8 scripts x 2 modes",
+                    essential=["switch_inside_write", "switch_inside_read", "wrapped", "refused_write", "empty_read", "semaphore", "no_semaphore", "marker_payload", "two_step_write", "peek_reclaim", "enumerated"])],
+        assumptions=["interleavings are sequentially consistent at the granularity of individual accesses; hardware store-buffer effects and the RELEASE/ACQUIRE vs RELAXED distinction on x86 are invisible",
+                     "one writer party and one reader party; all timeouts are 0 (nothing blocks)"],
+    ),
 }
